@@ -208,6 +208,35 @@ def check_frame(c):
         eq(devs, f"frame.dec.obs.{tag}", obs_frame(u), want_obs)
         eq(devs, f"frame.dec.repack.{tag}", bytes(u.pack(truncated=trunc, frame_type=ft)), want)
         eq(devs, f"frame.dec.len.{tag}", u.len(), len(want))
+    # managed parameters that carry a configured size for a field that is switched off (the size is then irrelevant)
+    over = {}
+    if c["insert_zone"] is None:
+        over.update(has_insert_zone=False, insert_zone_len=4)
+    if c["fecf"] is None:
+        over.update(has_fecf=False, fecf_len=2)
+    if over:
+        u = F.TransferFrame.unpack(bytes(want), ft, properties_for(F, c, len(want), **over))
+        eq(devs, "frame.dec.obs.size_configured_for_absent_field", obs_frame(u), want_obs)
+    # histories: pack hands out a fresh buffer; caller-owned mutable zone / trailer buffers are not modified and packing is repeatable
+    from ..core import pack_fresh, scribble
+
+    pack_fresh(devs, "frame.pack_returns_fresh_buffer", lambda: fr.pack(truncated=trunc, frame_type=ft), want)
+    b = lambda x: None if x is None else bytearray(bytes.fromhex(x))  # noqa: E731
+    iz, ocf, fecf, tfdz = b(c["insert_zone"]), b(c["ocf"]), b(c["fecf"]), bytearray(bytes.fromhex(c["tfdz"]))
+    hdr2 = H.TruncatedPrimaryHeader(scid=hc["scid"], src_dest=H.SourceOrDestField(hc["src_dest"]), vcid=hc["vcid"], map_id=hc["map_id"]) if trunc else build_header(hc)
+    fr2 = F.TransferFrame(hdr2, F.TransferFrameDataField(F.TfdzConstructionRules(c["rule"]), F.UslpProtocolIdentifier(c["upid"]), tfdz, c["pointer"]), insert_zone=iz, op_ctrl_field=ocf, fecf=fecf)
+    fr2.set_frame_len_in_header()
+    eq(devs, "frame.bytearray_inputs.pack", bytes(fr2.pack(truncated=trunc, frame_type=ft)), want)
+    eq(devs, "frame.bytearray_inputs.len_after_pack", fr2.len(), len(want))
+    fr2.set_frame_len_in_header()
+    eq(devs, "frame.bytearray_inputs.pack_again", bytes(fr2.pack(truncated=trunc, frame_type=ft)), want)
+    for nm, buf, orig in (("insert_zone", iz, c["insert_zone"]), ("ocf", ocf, c["ocf"]), ("fecf", fecf, c["fecf"]), ("tfdz", tfdz, c["tfdz"])):
+        if buf is not None:
+            eq(devs, f"frame.bytearray_inputs.caller_{nm}_untouched", bytes(buf), bytes.fromhex(orig))
+    buf = bytearray(want)
+    u = F.TransferFrame.unpack(buf, ft, props)
+    scribble(buf)
+    eq(devs, "frame.dec.obs_after_caller_reused_buffer", obs_frame(u), want_obs)
     return devs
 
 
